@@ -79,6 +79,20 @@ def check(rng, deep):
         C.push(out, dict(what='StageBlock steady_state returned although forward_maxit=3 cannot converge', input=dict(kind='stage-ss'), signature=dict(op='maxit', which='forward_maxit', block='stage')))
     except ValueError:
         pass
+    # a stage block with TWO backward variables converging at different speeds: every one of them must be a fixed point of the backward step
+    n += 1
+    tol = 1e-9
+    blk = m.twoback_stage
+    ss2 = blk.steady_state(m.TWOBACK_CALIB, backward_tol=tol)
+    st = ss2.internals[blk.name]['consav']
+    stepped = blk.backward_step_steady_state({'Va': st['Va'], 'V': st['V']}, {**m.TWOBACK_CALIB, **ss2.internals[blk.name]})
+    tight = blk.steady_state(m.TWOBACK_CALIB, backward_tol=1e-13, backward_maxit=200_000).internals[blk.name]['consav']
+    for k in ('Va', 'V'):
+        res = float(np.abs(stepped[k] - st[k]).max())
+        far = float(np.abs(tight[k] - st[k]).max())
+        if res > 10 * tol * max(1.0, float(np.abs(st[k]).max())) or far > 1e-6 * max(1.0, float(np.abs(st[k]).max())):
+            C.push(out, dict(what=f'the reported backward variable {k} of a stage block with two backward variables is not a fixed point of the backward step', input=dict(kind='stage-ss', backward=['Va', 'V'], variable=k),
+                             observed=dict(step_residual=res, distance_to_tight_solve=far), signature=dict(op='backward-fixed-point', block='stage', variable=k)))
     # model-level: targets, brackets, fixed point of re-evaluation, all applicable solvers
     mm = M.load()
     flat = mm.flat()
@@ -122,7 +136,7 @@ def oracle(ctx, hints, broken):
         import traceback
         viol, n = [dict(what=f'C07 oracle raised {type(ex).__name__}: {ex}', input=dict(kind='raise', trace=traceback.format_exc()[-800:]), signature=dict(op='raise'))], 1
     return dict(evaluations=n, violations=viol,
-                rule='three shipped households + the paired het/stage household (small grids): mass, non-negativity, D vs Dbeg, invariance, policy fixed point, aggregates, '
+                rule='a stage block with two backward variables (both fixed points of the backward step, vs a tight solve); three shipped households + the paired het/stage household (small grids): mass, non-negativity, D vs Dbeg, invariance, policy fixed point, aggregates, '
                      'zero shock, maxit raises; 5-block model: every applicable solver (brentq, hybr, broyden_custom, newton_custom, bounded) x three target forms: targets, '
                      'bounds, re-evaluation fixed point, warm start')
 
